@@ -1,4 +1,5 @@
 import Sml.Props.C18
+import Sml.Props.C18Dec
 
 #print axioms Sml.C18.step_refines
 #print axioms Sml.C18.run_refines_from'
@@ -8,3 +9,19 @@ import Sml.Props.C18
 #print axioms Sml.C18.eq_debug_visible_only
 #print axioms Sml.C18.buf_refines
 #print axioms Sml.C18.buf_run_refines
+#print axioms Sml.C18.pushByte_refines
+#print axioms Sml.C18.push_refines
+#print axioms Sml.C18.reset_finalize_refine
+#print axioms Sml.C18.step_refines_dec
+#print axioms Sml.C18.push_never_panics
+#print axioms Sml.C18.run_refines_dec
+#print axioms Sml.C18.decoder_on_arraybuf
+#print axioms Sml.C18.stale_bytes_never_leak
+#print axioms Sml.C18.stale_bytes_never_leak'
+#print axioms Sml.C18.fromBuf_any_buffer
+#print axioms Sml.C18.fromBuf_contents_irrelevant
+#print axioms Sml.C18.no_panic_arraybuf
+#print axioms Sml.C18.sound_arraybuf
+#print axioms Sml.C18.sound_stream_fromBuf
+#print axioms Sml.C18.roundtrip_push_fromBuf
+#print axioms Sml.C18.roundtrip_push_arraybuf
